@@ -47,7 +47,7 @@ class RGen:
         pause = rng.choice([0, 200, 1000])
         retain = rng.choice([0, 1, 2, 3, 5, 8, 64])
         k = rng.choice([1, 1, 2, 3])
-        cfg = dict(pause=pause, retain=retain, mode='real', q=rng.choice([300, 800]), slack=300, T=200_000, group=group)
+        cfg = dict(pause=pause, retain=retain, mode='real', q=rng.choice([300, 800]), slack=300, T=200_000, group=group, linger=60_000)
         st = []
         reader = False
         failing = False
@@ -77,8 +77,13 @@ class RGen:
         if reader:
             st.append(S('reader', act='off'))
         st += [S('adv', d=60_000), S('drain')]
-        if rng.random() < 0.5:
+        c = rng.random()
+        if c < 0.35:
             st += [S('close'), S('adv', d=3000), S('recv', n=1), S('recv', n=1)]
+        elif c < 0.6:
+            # Close while the worker is held up behind a back-off and an indication is already in flight on the socket
+            st += [S('busy', n=rng.choice([10, 20]), i=1), S('lost', n=1), S('ind', p=self.newpid()), S('adv', d=1000), S('close'),
+                   S('adv', d=70_000), S('recv', n=1), S('recv', n=1)]
         return dict(run=run, cfg=cfg, steps=st, tag='history')
 
     def burst(self, run, size, mode, group=False):
